@@ -1773,6 +1773,14 @@ impl Zeroconf {
         self.notify_monitors(DaemonEvent::IpDel(ip));
     }
 
+    /// Returns true if `ip` is an address of any interface in [my_intfs],
+    /// whatever the interface and the prefix length.
+    fn has_ip_in_my_intfs(&self, ip: &IpAddr) -> bool {
+        self.my_intfs
+            .values()
+            .any(|my_intf| my_intf.addrs.iter().any(|addr| addr.ip() == *ip))
+    }
+
     /// Check for IP changes and update [my_intfs] as needed.
     fn check_ip_changes(&mut self) {
         // Get the current interfaces.
@@ -1820,7 +1828,7 @@ impl Zeroconf {
                     "check_ip_changes: interface {} ({}) no longer exists, removing",
                     my_intf.name, if_index
                 );
-                for addr in my_intf.addrs.iter() {
+                for addr in my_intf.addrs.drain() {
                     match addr.ip() {
                         IpAddr::V4(ipv4) => last_ipv4 = Some(ipv4),
                         IpAddr::V6(ipv6) => last_ipv6 = Some(ipv6),
@@ -1840,7 +1848,12 @@ impl Zeroconf {
         }
 
         for ip in deleted_ips {
-            self.del_ip(ip);
+            // Services and monitors are keyed by the bare IP: an address that we still
+            // hold elsewhere (it moved to another interface, its prefix length changed,
+            // or it lives on two interfaces) has not gone away.
+            if !self.has_ip_in_my_intfs(&ip) {
+                self.del_ip(ip);
+            }
         }
 
         for (if_index, last_ipv4, last_ipv6) in deleted_intfs {
@@ -1953,7 +1966,9 @@ impl Zeroconf {
             }
         }
 
-        if ip_removed {
+        // Same as in `check_ip_changes`: the IP is gone only if no other interface
+        // (or prefix length) still has it.
+        if ip_removed && !self.has_ip_in_my_intfs(&intf.ip()) {
             // Notify the monitors.
             self.notify_monitors(DaemonEvent::IpDel(intf.ip()));
             // Remove the interface from my services that enabled `addr_auto`.
